@@ -4,6 +4,7 @@
   structural recursion on explicit fuel; `OutOfFuel` is an ordinary reported error.)
 -/
 import NextestModel.Model.Syntax
+import NextestModel.Lemmas.StringRoundTrip
 import NextestModel.Gen.Tables
 namespace NextestModel.C20
 open NextestModel NextestModel.Syntax
@@ -79,6 +80,161 @@ theorem printed_regex_slashes_escaped : ∀ s : List Char,
         · rename_i heq; injection heq with h1 h2; exact absurd h1 h
         · rename_i heq; injection heq with h1 h2; subst h1 h2; rfl
       simp [this, ih, h]
+
+/-! ## Printing then parsing is the identity -/
+
+/-- **Every string round-trips through the printer and the parser**: for every list of Unicode scalar
+    values `s` (of any length, any characters — controls, quotes, delimiters, non-ASCII, leading blanks
+    or matcher prefixes), parsing the printed form of `s` followed by a terminator (`)`, `,` or the end
+    of the input) yields exactly `s`, consumes exactly the printed text and reports nothing.
+    (False before the repair of F3: `'` and `"`.) -/
+theorem string_roundtrip (cx : Ctx) (s tail : List Char) (ht : Terminated tail) (errs : List PErr) (needs : List (Bool × List Char)) :
+    parseString cx { rest := printString s ++ tail, errs := errs, needs := needs } =
+      (some s, { rest := tail, errs := errs, needs := needs }) := by
+  unfold parseString printString
+  simpa using loop_printed cx tail ht errs needs s.length s (Nat.le_refl _) 0 [] _ (Nat.lt_succ_self _)
+
+/-- **Every regular expression the parser can produce round-trips**: the printed form (only `/`
+    escaped) up to the closing delimiter is read back as the same text.  A text ending in a backslash
+    is excluded: the parser never produces one (before the closing `/` it reads `\/` as an escaped
+    slash), and no valid regex ends in a lone backslash. -/
+theorem regex_roundtrip (s tail : List Char) (h : endsWithBackslash s = false) :
+    regexLoop ((printRegex s ++ '/' :: tail).length + 1) [] (printRegex s ++ '/' :: tail) = (s, '/' :: tail) := by
+  simpa using regexLoop_printed tail s.length s (Nat.le_refl _) h [] _ (Nat.lt_succ_self _)
+
+/-- and the excluded shape really does not round-trip (so the hypothesis is needed, and such a text
+    must not be in the parser's image — it is not: see above) -/
+theorem regex_trailing_backslash_counterexample :
+    regexLoop 10 [] (printRegex ['a', '\\'] ++ ['/']) ≠ (['a', '\\'], ['/']) := by decide
+
+/-- the first printed character of a non-empty value is neither blank nor a matcher prefix -/
+private theorem printString_head (c : Char) (cs : List Char) :
+    ∃ h t, printString (c :: cs) = h :: t ∧ h ≠ ' ' ∧ h ≠ '\n' ∧ h ≠ '\r' ∧ h ≠ '/' ∧ h ≠ '#' ∧ h ≠ '=' ∧ h ≠ '~' := by
+  simp only [printString, printStringFrom]
+  rcases printed_string_has_no_raw_stop 0 c with ⟨hraw, _, _, _, hsl⟩ | ⟨t, ht, _⟩
+  · -- printed raw: then it is not one of the protected leading characters
+    refine ⟨c, printStringFrom 1 cs, by rw [hraw]; rfl, ?_⟩
+    have key : ∀ x : Char, (x = ' ' ∨ x = '\n' ∨ x = '\r' ∨ x = '#' ∨ x = '=' ∨ x = '~') → printStringChar 0 x ≠ [x] := by
+      intro x hx; rcases hx with rfl | rfl | rfl | rfl | rfl | rfl <;> decide
+    refine ⟨?_, ?_, ?_, hsl, ?_, ?_, ?_⟩ <;> intro e <;> exact key c (by simp [e]) hraw
+  · exact ⟨'\\', t ++ printStringFrom 1 cs, by rw [ht]; rfl, by decide, by decide, by decide, by decide, by decide, by decide, by decide⟩
+
+private theorem skipWs_nonws (c : Char) (cs : List Char) (h1 : c ≠ ' ') (h2 : c ≠ '\n') (h3 : c ≠ '\r') :
+    skipWs (c :: cs) = c :: cs := by
+  rw [skipWs]
+  · intro cs' e; simp at e; exact h1 e.1
+  · intro cs' e; simp at e; exact h2 e.1
+  · intro cs' e; simp at e; exact h3 e.1
+
+/-- what a successful parse produces, for a predicate whose default matcher is `dm` -/
+def MatcherOk (cx : Ctx) (dm : DefaultMatcher) : Matcher → Prop
+  | .equal v imp => v ≠ [] ∧ (imp = true → dm = .equal)
+  | .contains v imp => v ≠ [] ∧ (imp = true → dm = .contains)
+  | .glob v imp => v ≠ [] ∧ (imp = true → dm = .glob) ∧ lookup cx.globValid v = some true
+  | .regex v => endsWithBackslash v = false ∧ lookup cx.regexValid v = some true
+
+/-- **Every matcher round-trips, and printing never changes which alternative of `set_matcher` reads
+    it back**: explicit `=`, `~`, `#`, `/…/` and the implicit form of the predicate's default matcher,
+    with any value. -/
+theorem matcher_roundtrip (cx : Ctx) (dm : DefaultMatcher) (m : Matcher) (tail : List Char) (errs : List PErr)
+    (needs : List (Bool × List Char)) (h : MatcherOk cx dm m) :
+    setMatcher cx dm { rest := printMatcher m ++ ')' :: tail, errs := errs, needs := needs } =
+      (some m, { rest := ')' :: tail, errs := errs, needs := needs }) := by
+  have hterm : Terminated (')' :: tail) := Or.inr ⟨tail, Or.inr rfl⟩
+  have text : ∀ (v : List Char), v ≠ [] →
+      parseMatcherText cx { rest := printString v ++ ')' :: tail, errs := errs, needs := needs } =
+        (some v, { rest := ')' :: tail, errs := errs, needs := needs }) := by
+    intro v hv
+    simp only [parseMatcherText, string_roundtrip cx v _ hterm]
+    cases v with
+    | nil => exact absurd rfl hv
+    | cons _ _ => rfl
+  -- an implicit value starts with a character that selects the default alternative
+  have implicit : ∀ (v : List Char), v ≠ [] → ∃ hd tl, printString v ++ ')' :: tail = hd :: tl ∧
+      skipWs (hd :: tl) = hd :: tl ∧ hd ≠ '/' ∧ hd ≠ '#' ∧ hd ≠ '=' ∧ hd ≠ '~' := by
+    intro v hv
+    cases v with
+    | nil => exact absurd rfl hv
+    | cons c cs =>
+      obtain ⟨hd, t, hp, h1, h2, h3, h4, h5, h6, h7⟩ := printString_head c cs
+      refine ⟨hd, t ++ ')' :: tail, by rw [hp]; rfl, ?_, h4, h5, h6, h7⟩
+      exact skipWs_nonws hd _ h1 h2 h3
+  cases m with
+  | regex v =>
+    obtain ⟨hb, hv⟩ := h
+    have hr := regex_roundtrip v (')' :: tail) hb
+    have hws : skipWs ('/' :: (printRegex v ++ '/' :: ')' :: tail)) = '/' :: (printRegex v ++ '/' :: ')' :: tail) :=
+      skipWs_nonws _ _ (by decide) (by decide) (by decide)
+    have hws2 : skipWs ('/' :: ')' :: tail) = '/' :: ')' :: tail := skipWs_nonws _ _ (by decide) (by decide) (by decide)
+    simp only [setMatcher, printMatcher, List.cons_append, List.nil_append, List.append_assoc, St.withRest, hws, parseRegex, hr]
+    simp [St.valid, hv, St.withRest, hws2]
+  | equal v imp =>
+    obtain ⟨hne, hdm⟩ := h
+    cases imp with
+    | false =>
+      have hws : ∀ (x : Char) (r : List Char), (x = '=' ∨ x = '~' ∨ x = '#') → skipWs (x :: r) = x :: r := by
+        intro x r hx; rcases hx with rfl | rfl | rfl <;> exact skipWs_nonws _ _ (by decide) (by decide) (by decide)
+      simp only [setMatcher, printMatcher, Bool.false_eq_true, if_false, List.cons_append, List.nil_append, St.withRest]
+      rw [hws _ _ (by simp)]
+      simp only [text v hne]
+      rfl
+    | true =>
+      obtain ⟨hd, tl, hp, hws, h4, h5, h6, h7⟩ := implicit v hne
+      have hdm' := hdm rfl; subst hdm'
+      have ht := text v hne
+      simp only [setMatcher, printMatcher, if_true, List.nil_append, St.withRest]
+      rw [hp] at ht ⊢
+      rw [hws]
+      split
+      · rename_i heq; simp at heq; exact absurd heq.1 h4
+      · rename_i heq; simp at heq; exact absurd heq.1 h5
+      · rename_i heq; simp at heq; exact absurd heq.1 h6
+      · rename_i heq; simp at heq; exact absurd heq.1 h7
+      · simp only [ht]; rfl
+  | contains v imp =>
+    obtain ⟨hne, hdm⟩ := h
+    cases imp with
+    | false =>
+      have hws : ∀ (x : Char) (r : List Char), (x = '=' ∨ x = '~' ∨ x = '#') → skipWs (x :: r) = x :: r := by
+        intro x r hx; rcases hx with rfl | rfl | rfl <;> exact skipWs_nonws _ _ (by decide) (by decide) (by decide)
+      simp only [setMatcher, printMatcher, Bool.false_eq_true, if_false, List.cons_append, List.nil_append, St.withRest]
+      rw [hws _ _ (by simp)]
+      simp only [text v hne]
+      rfl
+    | true =>
+      obtain ⟨hd, tl, hp, hws, h4, h5, h6, h7⟩ := implicit v hne
+      have hdm' := hdm rfl; subst hdm'
+      have ht := text v hne
+      simp only [setMatcher, printMatcher, if_true, List.nil_append, St.withRest]
+      rw [hp] at ht ⊢
+      rw [hws]
+      split
+      · rename_i heq; simp at heq; exact absurd heq.1 h4
+      · rename_i heq; simp at heq; exact absurd heq.1 h5
+      · rename_i heq; simp at heq; exact absurd heq.1 h6
+      · rename_i heq; simp at heq; exact absurd heq.1 h7
+      · simp only [ht]; rfl
+  | glob v imp =>
+    obtain ⟨hne, hdm, hv⟩ := h
+    cases imp with
+    | false =>
+      have hws : skipWs ('#' :: (printString v ++ ')' :: tail)) = '#' :: (printString v ++ ')' :: tail) :=
+        skipWs_nonws _ _ (by decide) (by decide) (by decide)
+      simp only [setMatcher, printMatcher, Bool.false_eq_true, if_false, List.cons_append, List.nil_append, St.withRest, hws, parseGlobM, text v hne]
+      simp [St.valid, hv]
+    | true =>
+      obtain ⟨hd, tl, hp, hws, h4, h5, h6, h7⟩ := implicit v hne
+      have hdm' := hdm rfl; subst hdm'
+      have ht := text v hne
+      simp only [setMatcher, printMatcher, if_true, List.nil_append, St.withRest]
+      rw [hp] at ht ⊢
+      rw [hws]
+      split
+      · rename_i heq; simp at heq; exact absurd heq.1 h4
+      · rename_i heq; simp at heq; exact absurd heq.1 h5
+      · rename_i heq; simp at heq; exact absurd heq.1 h6
+      · rename_i heq; simp at heq; exact absurd heq.1 h7
+      · simp only [parseGlobM, ht]; simp [St.valid, hv]
 
 /-! ## Tie to the source: the escape table of `parse_escaped_char` -/
 
